@@ -41,6 +41,9 @@ def simulate(iface, msgs):
                 log.append(None)         # standard command: no log entry
                 continue
             d = iface.decls[idx]
+            if d.args and not argtxt:
+                errs.append('-115')      # the generator writes no parameters: declared parameters are then missing
+                continue
             log.append(f'{d.id}({argtxt})')
             errs += G.decl_errs(d)
     return [l for l in log if l is not None], errs
